@@ -56,6 +56,46 @@ def instances(rng):
     return out
 
 
+# --- shapes the parser builds itself for single-valued wildcards (a generic element without a name) ---------------------
+@dataclass
+class AttrAndWild:  # an attribute field next to a single-valued wildcard
+    class Meta:
+        name = "attrAndWild"
+
+    a: Optional[str] = field(default=None, metadata={"type": "Attribute"})
+    extra: dict = field(default_factory=dict, metadata={"type": "Attributes"})
+    any: Optional[object] = field(default=None, metadata={"type": "Wildcard"})
+
+
+@dataclass
+class Inner:
+    class Meta:
+        nillable = True
+
+    any: Optional[object] = field(default=None, metadata={"type": "Wildcard"})
+
+
+@dataclass
+class NilHolder:
+    class Meta:
+        name = "nilHolder"
+
+    inner: Optional[Inner] = field(default=None, metadata={"type": "Element", "nillable": True})
+    after: Optional[str] = field(default=None, metadata={"type": "Element"})
+
+
+def shape_instances():
+    from xsdata.formats.dataclass.models.generics import AnyElement
+
+    return [
+        AttrAndWild(a="1", any=AnyElement(text="hello")),
+        AttrAndWild(a="x y", extra={"k": "v"}, any=AnyElement(text="t")),
+        AttrAndWild(any=AnyElement(text="only text")),
+        NilHolder(inner=Inner(any=AnyElement(text=None, children=[AnyElement(qname="x", text="1"), AnyElement(qname="y", text="2")])), after="z"),
+        NilHolder(inner=Inner(any=AnyElement(qname="x", text="1")), after="z"),
+    ]
+
+
 # documents for C08: prefixes declared at different depths below a union element
 DOCS = [
     f'<h:holder xmlns:h="{NS}"><h:u><h:item xmlns:p="urn:p"><h:q>p:a</h:q></h:item><h:x>1</h:x></h:u></h:holder>',
